@@ -231,7 +231,7 @@ func (s *Sim) log(r Rec) {
 		c17 := s.sc.Prop == "C17" && (r.Kind == "hin" || r.Kind == "inv" || r.Kind == "ret" || r.Kind == "dialdone" || r.Kind == "close" || r.Kind == "write")
 		// C16's engine R pass judges what the state callback and Err() say when
 		// endings race with each other (same remark)
-		c16 := s.sc.Prop == "C16" && (r.Kind == "state" || r.Kind == "inv" || r.Kind == "ret" || r.Kind == "cause" || r.Kind == "close" || r.Kind == "finalerr" || r.Kind == "dialdone")
+		c16 := s.sc.Prop == "C16" && (r.Kind == "state" || r.Kind == "inv" || r.Kind == "ret" || r.Kind == "cause" || r.Kind == "close" || r.Kind == "finalerr" || r.Kind == "dialdone" || r.Kind == "doneerrnil")
 		if !c17 && !c16 {
 			return
 		}
